@@ -30,10 +30,12 @@ theorem run_evs_prefix (abort : Bool) (tb : MsgTables) (top : Top) (x : List Byt
 mode and EVERY input, the event stream a consumer sees is shaped: every value is of a primitive class the printers know, and the
 events that directly follow a byte-buffer event as its children carry values -/
 theorem decoder_shaped (env : PrintEnv) (abort : Bool) (tb : MsgTables)
-    (h : tb.shapeOk (fun n => (env.prim n).isSome) = true) (top : Top)
-    (htop : ∀ t, top = .ty t → t.shapeOk (fun n => (env.prim n).isSome) = true) (x : List Byte) :
+    (h : tb.shapeOk (fun p => (env.prim p.name).isSome) = true) (top : Top)
+    (htop : ∀ t, top = .ty t → t.shapeOk (fun p => (env.prim p.name).isSome) = true) (x : List Byte) :
     shapedB env (streamOf abort (marshalRun abort tb top x)) = true := by
-  obtain ⟨new, ho, hgd⟩ := runWalker_gd (okc := fun n => (env.prim n).isSome) abort tb h top htop x
+  have hpk : PrimLink abort (fun p => (env.prim p.name).isSome) (fun m => (env.prim m.vclass).isSome = true) :=
+    fun p hp σ x _ => hp
+  obtain ⟨new, ho, hgd⟩ := runWalker_gd abort hpk tb h top htop x
   simp only [initSt, List.nil_append] at ho
   obtain ⟨suffix, hsplit⟩ := run_evs_prefix abort tb top x
   rw [ho] at hsplit
@@ -71,8 +73,8 @@ theorem decoder_shaped (env : PrintEnv) (abort : Bool) (tb : MsgTables)
 
 /-- the printers' environment over the regenerated primitive table (the one `tableEnv` of the non-vacuity file) -/
 theorem c14_shape_tables :
-    Generated.msgTables.shapeOk (fun n => (tableEnv.prim n).isSome) = true ∧
-    Generated.allTypes.all (Ty.shapeOk fun n => (tableEnv.prim n).isSome) = true := by
+    Generated.msgTables.shapeOk (fun p => (tableEnv.prim p.name).isSome) = true ∧
+    Generated.allTypes.all (Ty.shapeOk fun p => (tableEnv.prim p.name).isSome) = true := by
   constructor <;> decide +kernel
 
 /-- **C14, totality for the decoder's streams**: for every layout of `/repo` (and the command, response and stream decoders),
